@@ -2047,3 +2047,255 @@ Proof.
   - destruct H1 as (s & Hs & ->). cbn [resolve_elem resolve_nref]. specialize (HaC _ _ Hs). rewrite N2Nat.id in HaC.
     rewrite HaC. reflexivity.
 Qed.
+
+(* ================================================================== the name-table phases *)
+Definition swap_kv (kv : list N * N) : N * list N := (snd kv, fst kv).
+
+(* ---- CELLNAME records with their properties *)
+Fixpoint cnp_list (s : nat) (pds : list (list prop)) : list (N * prop) :=
+  match pds with [] => [] | pd :: t => map (fun p => (N.of_nat s, p)) pd ++ cnp_list (S s) t end.
+
+Definition k_after_cellnames (k : core) (s : nat) (names : list (list N)) (pds : list (list prop)) : core :=
+  mkC (k_unit k) (k_lprops k) (k_cells k)
+      (match names with [] => k_target k | _ => T_cellname (N.of_nat (s + length names - 1)) end)
+      (rev (map swap_kv (enum_from s names)) ++ k_cn k) (N.of_nat (s + length names))
+      (rev (cnp_list s pds) ++ k_cnp k) (k_ts k) (k_tsn k) (k_pn k) (k_pnn k) (k_ps k) (k_psn k)
+      (match names with [] => k_md k | _ => mode_set (k_md k) 0 1 end).
+
+Lemma lookup_app_none t1 t2 j : lookup t1 j = None -> lookup (t1 ++ t2) j = lookup t2 j.
+Proof.
+  induction t1 as [|[a b] t IH]; intros H; [reflexivity|]. cbn [lookup app] in *.
+  destruct (a =? j); [discriminate|]. apply IH. exact H.
+Qed.
+Lemma lookup_enum_none names : forall s j, (forall i, (i < length names)%nat -> j <> N.of_nat (s + i)) ->
+  lookup (rev (map swap_kv (enum_from s names))) j = None.
+Proof.
+  induction names as [|n t IH]; intros s j H; [reflexivity|].
+  cbn [enum_from map rev swap_kv fst snd]. 
+  assert (G : forall l, lookup l j = None -> lookup (l ++ [(N.of_nat s, n)]) j = None).
+  { intros l Hl. rewrite lookup_app_none by exact Hl. cbn [lookup]. 
+    replace (N.of_nat s =? j) with false; [reflexivity|]. symmetry. apply N.eqb_neq. intros E.
+    apply (H 0%nat); [cbn; lia|]. rewrite <- E. f_equal. lia. }
+  apply G. apply IH. intros i Hi. specialize (H (S i)). cbn [length] in H. replace (S s + i)%nat with (s + S i)%nat by lia.
+  apply H. lia.
+Qed.
+
+Lemma steps_cellnames ois cfg cells offs : forall l st recs pds st',
+  cellnames_to_oas cfg cells offs st l = (recs, pds, st') ->
+  Forall (fun c => wf_str (cl_name c)) l -> Forall (Forall wf_nprop) pds ->
+  forall m k s, m_abs m = true -> (md0 (k_md k) = 0 \/ md0 (k_md k) = 1) -> k_cnn k = N.of_nat s ->
+    (forall j, N.of_nat s <= j -> lookup (k_cn k) j = None) ->
+    exists m', steps ois m k recs m' (k_after_cellnames k s (map cl_name l) pds) /\ m_abs m' = true.
+Proof.
+  induction l as [|c t IH]; intros st recs pds st' E Hn Hp m k s Ha Hmd Hcnn Hlk.
+  - injection E as <- <- <-. exists m. split; [|exact Ha]. unfold k_after_cellnames. cbn [map enum_from rev app cnp_list length].
+    rewrite Nat.add_0_r, <- Hcnn. destruct k; constructor.
+  - cbn [cellnames_to_oas] in E.
+    pose proof (properties_to_oas_enc (cellname_props cfg c (cell_offset_of cells offs (cl_name c))) st) as Hpr.
+    destruct (properties_to_oas st (cellname_props cfg c (cell_offset_of cells offs (cl_name c)))) as [[pr pd] st1].
+    cbn [fst snd] in Hpr. subst pr.
+    destruct (cellnames_to_oas cfg cells offs st1 t) as [[r2 d2] st2] eqn:E2.
+    injection E as <- <- <-. inversion Hn as [|? ? Hc Ht]; subst. inversion Hp as [|? ? Hp1 Hp2]; subst.
+    pose proof (step_cellname ois m k (cl_name c) Hc Hmd ltac:(apply Hlk; rewrite Hcnn; lia)) as S1.
+    destruct (steps_props_cellname ois (k_cnn k) pd m (k_add_cn k (cl_name c)) Hp1 eq_refl Ha) as (m1 & S2 & A1).
+    set (k1 := k_set_cnp (k_add_cn k (cl_name c)) (rev (map (fun p => (k_cnn k, p)) pd) ++ k_cnp (k_add_cn k (cl_name c)))) in *.
+    destruct (IH st1 r2 d2 st2 E2 Ht Hp2 m1 k1 (S s) A1) as (m2 & S3 & A2).
+    + subst k1. destruct k as [? ? ? ? ? ? ? ? ? ? ? ? ? [[[a b] c0] e]]. cbn. right. reflexivity.
+    + subst k1. cbn [k_set_cnp k_add_cn k_cnn]. rewrite Hcnn. lia.
+    + intros j Hj. subst k1. cbn [k_set_cnp k_add_cn k_cn lookup]. rewrite Hcnn.
+      replace (N.of_nat s =? j) with false by (symmetry; apply N.eqb_neq; lia). apply Hlk. lia.
+    + exists m2. split; [|exact A2].
+      change ((OasisRecord_CELLNAME_IMPLICIT :: wr_cstring (cl_name c)) :: map enc_prop_g pd ++ r2)
+        with ([OasisRecord_CELLNAME_IMPLICIT :: wr_cstring (cl_name c)] ++ map enc_prop_g pd ++ r2).
+      eapply steps_app; [exact S1|]. eapply steps_app; [exact S2|].
+      replace (k_after_cellnames k s (map cl_name (c :: t)) (pd :: d2)) with (k_after_cellnames k1 (S s) (map cl_name t) d2);
+        [exact S3|].
+      subst k1. unfold k_after_cellnames. cbn [map enum_from rev cnp_list length k_set_cnp k_add_cn k_unit k_lprops k_cells
+        k_target k_cn k_cnn k_cnp k_ts k_tsn k_pn k_pnn k_ps k_psn k_md swap_kv fst snd].
+      rewrite Hcnn.
+      assert (Emd : mode_set (mode_set (k_md k) 0 1) 0 1 = mode_set (k_md k) 0 1)
+        by (destruct (k_md k) as [[[a b] c0] e]; reflexivity).
+      f_equal.
+      * destruct (map cl_name t) eqn:Et; [cbn [length]; f_equal; f_equal; lia|cbn [length]; f_equal; f_equal; lia].
+      * rewrite <- app_assoc. reflexivity.
+      * f_equal. lia.
+      * rewrite rev_app_distr, <- app_assoc. reflexivity.
+      * destruct (map cl_name t); [reflexivity|exact Emd].
+Qed.
+
+(* ---- TEXTSTRING and PROPNAME records (explicit reference numbers) *)
+Definition k_after_ts (k : core) (items : list (list N * N)) : core :=
+  match items with
+  | [] => k
+  | _ => mkC (k_unit k) (k_lprops k) (k_cells k) T_other (k_cn k) (k_cnn k) (k_cnp k)
+             (rev (map swap_kv items) ++ k_ts k) (k_tsn k + N.of_nat (length items)) (k_pn k) (k_pnn k) (k_ps k) (k_psn k)
+             (mode_set (k_md k) 1 2)
+  end.
+Definition k_after_pn (k : core) (items : list (list N * N)) : core :=
+  match items with
+  | [] => k
+  | _ => mkC (k_unit k) (k_lprops k) (k_cells k) T_other (k_cn k) (k_cnn k) (k_cnp k)
+             (k_ts k) (k_tsn k) (rev (map swap_kv items) ++ k_pn k) (k_pnn k + N.of_nat (length items)) (k_ps k) (k_psn k)
+             (mode_set (k_md k) 2 2)
+  end.
+
+Lemma steps_textstrings ois : forall items m k,
+  (md1 (k_md k) = 0 \/ md1 (k_md k) = 2) -> NoDup (map snd items) ->
+  (forall kv, In kv items -> wf_str (fst kv) /\ wf_u (snd kv) /\ lookup (k_ts k) (snd kv) = None) ->
+  steps ois m k (numbered_name_records OasisRecord_TEXTSTRING items) m (k_after_ts k items).
+Proof.
+  induction items as [|[s n] t IH]; intros m k Hmd Hnd Hit; [constructor|].
+  cbn [numbered_name_records map fst snd].
+  destruct (Hit (s, n) (or_introl eq_refl)) as (Hs & Hn & Hl). cbn [fst snd] in *.
+  change ((OasisRecord_TEXTSTRING :: wr_cstring s ++ enc_uint n) :: map (fun kv => OasisRecord_TEXTSTRING :: wr_cstring (fst kv) ++ enc_uint (snd kv)) t)
+    with ([OasisRecord_TEXTSTRING :: wr_cstring s ++ enc_uint n] ++ numbered_name_records OasisRecord_TEXTSTRING t).
+  eapply steps_app; [apply (step_textstring ois m k s n Hs Hn Hmd Hl)|].
+  inversion Hnd as [|? ? Hnin Hnd']; subst.
+  replace (k_after_ts k ((s, n) :: t)) with (k_after_ts (k_add_ts k s n) t).
+  - apply IH; [destruct k as [? ? ? ? ? ? ? ? ? ? ? ? ? [[[a b] c0] e]]; cbn; right; reflexivity|exact Hnd'|].
+    intros kv Hin. destruct (Hit kv (or_intror Hin)) as (A & B & C). split; [exact A|]. split; [exact B|].
+    cbn [k_add_ts k_ts lookup]. replace (n =? snd kv) with false; [exact C|]. symmetry. apply N.eqb_neq. intros ->.
+    apply Hnin. apply in_map. exact Hin.
+  - unfold k_after_ts. destruct t as [|kv t']; cbn [k_add_ts map rev length k_unit k_lprops k_cells k_target k_cn k_cnn k_cnp
+      k_ts k_tsn k_pn k_pnn k_ps k_psn k_md swap_kv fst snd app]; [reflexivity|].
+    assert (Emd : mode_set (mode_set (k_md k) 1 2) 1 2 = mode_set (k_md k) 1 2)
+      by (destruct (k_md k) as [[[a b] c0] e]; reflexivity).
+    rewrite Emd. f_equal; [rewrite <- !app_assoc; reflexivity|lia].
+Qed.
+
+Lemma steps_propnames ois : forall items m k,
+  (md2 (k_md k) = 0 \/ md2 (k_md k) = 2) -> NoDup (map snd items) ->
+  (forall kv, In kv items -> wf_str (fst kv) /\ wf_u (snd kv) /\ lookup (k_pn k) (snd kv) = None) ->
+  steps ois m k (numbered_name_records OasisRecord_PROPNAME items) m (k_after_pn k items).
+Proof.
+  induction items as [|[s n] t IH]; intros m k Hmd Hnd Hit; [constructor|].
+  cbn [numbered_name_records map fst snd].
+  destruct (Hit (s, n) (or_introl eq_refl)) as (Hs & Hn & Hl). cbn [fst snd] in *.
+  change ((OasisRecord_PROPNAME :: wr_cstring s ++ enc_uint n) :: map (fun kv => OasisRecord_PROPNAME :: wr_cstring (fst kv) ++ enc_uint (snd kv)) t)
+    with ([OasisRecord_PROPNAME :: wr_cstring s ++ enc_uint n] ++ numbered_name_records OasisRecord_PROPNAME t).
+  eapply steps_app; [apply (step_propname ois m k s n Hs Hn Hmd Hl)|].
+  inversion Hnd as [|? ? Hnin Hnd']; subst.
+  replace (k_after_pn k ((s, n) :: t)) with (k_after_pn (k_add_pn k s n) t).
+  - apply IH; [destruct k as [? ? ? ? ? ? ? ? ? ? ? ? ? [[[a b] c0] e]]; cbn; right; reflexivity|exact Hnd'|].
+    intros kv Hin. destruct (Hit kv (or_intror Hin)) as (A & B & C). split; [exact A|]. split; [exact B|].
+    cbn [k_add_pn k_pn lookup]. replace (n =? snd kv) with false; [exact C|]. symmetry. apply N.eqb_neq. intros ->.
+    apply Hnin. apply in_map. exact Hin.
+  - unfold k_after_pn. destruct t as [|kv t']; cbn [k_add_pn map rev length k_unit k_lprops k_cells k_target k_cn k_cnn k_cnp
+      k_ts k_tsn k_pn k_pnn k_ps k_psn k_md swap_kv fst snd app]; [reflexivity|].
+    assert (Emd : mode_set (mode_set (k_md k) 2 2) 2 2 = mode_set (k_md k) 2 2)
+      by (destruct (k_md k) as [[[a b] c0] e]; reflexivity).
+    rewrite Emd. f_equal; [rewrite <- !app_assoc; reflexivity|lia].
+Qed.
+
+(* ---- PROPSTRING records (implicit reference numbers) *)
+Definition k_after_ps (k : core) (s : nat) (vals : list (list N)) : core :=
+  match vals with
+  | [] => k
+  | _ => mkC (k_unit k) (k_lprops k) (k_cells k) T_other (k_cn k) (k_cnn k) (k_cnp k) (k_ts k) (k_tsn k) (k_pn k) (k_pnn k)
+             (rev (map swap_kv (enum_from s vals)) ++ k_ps k) (N.of_nat (s + length vals)) (mode_set (k_md k) 3 1)
+  end.
+
+Lemma steps_propstrings ois : forall vals m k s,
+  (md3 (k_md k) = 0 \/ md3 (k_md k) = 1) -> k_psn k = N.of_nat s -> Forall wf_str vals ->
+  (forall j, N.of_nat s <= j -> lookup (k_ps k) j = None) ->
+  steps ois m k (propstring_records vals) m (k_after_ps k s vals).
+Proof.
+  induction vals as [|v t IH]; intros m k s Hmd Hpsn Hv Hlk; [constructor|].
+  cbn [propstring_records map]. inversion Hv as [|? ? Hv1 Hv2]; subst.
+  change ((OasisRecord_PROPSTRING_IMPLICIT :: wr_cstring v) :: map (fun s0 => OasisRecord_PROPSTRING_IMPLICIT :: wr_cstring s0) t)
+    with ([OasisRecord_PROPSTRING_IMPLICIT :: wr_cstring v] ++ propstring_records t).
+  eapply steps_app; [apply (step_propstring ois m k v Hv1 Hmd); apply Hlk; rewrite Hpsn; lia|].
+  replace (k_after_ps k s (v :: t)) with (k_after_ps (k_add_ps k v) (S s) t).
+  - apply IH; [destruct k as [? ? ? ? ? ? ? ? ? ? ? ? ? [[[a b] c0] e]]; cbn; right; reflexivity| |exact Hv2|].
+    + cbn [k_add_ps k_psn]. rewrite Hpsn. lia.
+    + intros j Hj. cbn [k_add_ps k_ps lookup]. rewrite Hpsn.
+      replace (N.of_nat s =? j) with false by (symmetry; apply N.eqb_neq; lia). apply Hlk. lia.
+  - unfold k_after_ps. destruct t as [|v' t']; cbn [k_add_ps map rev length enum_from k_unit k_lprops k_cells k_target k_cn
+      k_cnn k_cnp k_ts k_tsn k_pn k_pnn k_ps k_psn k_md swap_kv fst snd app]; rewrite ?Hpsn.
+    + unfold k_add_ps. rewrite Hpsn. cbn [swap_kv fst snd]. f_equal. lia.
+    + assert (Emd : mode_set (mode_set (k_md k) 3 1) 3 1 = mode_set (k_md k) 3 1)
+        by (destruct (k_md k) as [[[a b] c0] e]; reflexivity).
+      rewrite Emd. f_equal; [rewrite <- !app_assoc; reflexivity|lia].
+Qed.
+
+(* ================================================================== sizes: everything written is part of the file *)
+Lemma reclen_app a b : reclen (a ++ b) = reclen a + reclen b.
+Proof. unfold reclen. rewrite concat_app, app_length. lia. Qed.
+Lemma reclen_cons r a : reclen (r :: a) = N.of_nat (length r) + reclen a.
+Proof. unfold reclen. cbn [concat]. rewrite app_length. lia. Qed.
+
+Lemma names_records_bounds code items :
+  N.of_nat (length items) <= reclen (numbered_name_records code items) /\
+  forall kv, In kv items -> N.of_nat (length (fst kv)) <= reclen (numbered_name_records code items).
+Proof.
+  induction items as [|kv t [IH1 IH2]]; [split; [cbn; lia|intros ? []]|].
+  cbn [numbered_name_records map]. rewrite reclen_cons. cbn [length]. unfold wr_cstring. rewrite !app_length.
+  fold (numbered_name_records code t). split; [lia|].
+  intros kv' [<-|Hin]; [lia|]. specialize (IH2 kv' Hin). lia.
+Qed.
+Lemma propstring_records_bounds vals :
+  N.of_nat (length vals) <= reclen (propstring_records vals) /\
+  forall s, In s vals -> N.of_nat (length s) <= reclen (propstring_records vals).
+Proof.
+  induction vals as [|v t [IH1 IH2]]; [split; [cbn; lia|intros ? []]|].
+  cbn [propstring_records map]. rewrite reclen_cons. cbn [length]. unfold wr_cstring. rewrite !app_length.
+  fold (propstring_records t). split; [lia|].
+  intros s [<-|Hin]; [lia|]. specialize (IH2 s Hin). lia.
+Qed.
+Lemma cellnames_records_bound cfg cells offs : forall l st,
+  N.of_nat (length l) <= reclen (fst (fst (cellnames_to_oas cfg cells offs st l))).
+Proof.
+  induction l as [|c t IH]; intros st; [cbn; lia|]. cbn [cellnames_to_oas].
+  destruct (properties_to_oas st (cellname_props cfg c (cell_offset_of cells offs (cl_name c)))) as [[pr pd] st1].
+  specialize (IH st1). destruct (cellnames_to_oas cfg cells offs st1 t) as [[r2 d2] st2]. cbn [fst snd] in *.
+  rewrite reclen_cons, reclen_app. cbn [length]. lia.
+Qed.
+Lemma cells_offsets_bound cells : forall l pos ts st,
+  Forall (fun o => o <= pos + reclen (fst (fst (fst (fst (cells_to_oas cells pos ts st l))))))
+         (snd (fst (fst (cells_to_oas cells pos ts st l)))).
+Proof.
+  induction l as [|c t IH]; intros pos ts st; cbn [cells_to_oas]; [constructor|].
+  destruct (cell_to_oas cells ts st c) as [[[r1 d1] ts1] st1].
+  specialize (IH (pos + reclen r1) ts1 st1).
+  destruct (cells_to_oas cells (pos + reclen r1) ts1 st1 t) as [[[[r2 d2] o2] ts2] st2]. cbn [fst snd] in *.
+  rewrite reclen_app. constructor; [lia|]. eapply Forall_impl; [|exact IH]. cbv beta. intros a Ha. lia.
+Qed.
+Lemma cell_offset_of_bound cells offs name B : Forall (fun o => o <= B) offs -> cell_offset_of cells offs name <= B.
+Proof.
+  intros H. unfold cell_offset_of. destruct (cell_index cells name) as [i|]; [|lia].
+  destruct (nth_in_or_default (N.to_nat i) offs 0) as [Hin|->]; [|lia].
+  rewrite Forall_forall in H. apply H. exact Hin.
+Qed.
+
+(* ================================================================== decoder tables against the lists of keys *)
+Lemma lookup_in (tab : table) k v : NoDup (map fst tab) -> In (k, v) tab -> lookup tab k = Some v.
+Proof.
+  induction tab as [|[a b] t IH]; intros Hnd Hin; [destruct Hin|]. cbn [lookup map fst] in *.
+  inversion Hnd as [|? ? Hn Hnd']; subst. destruct Hin as [E|Hin].
+  - injection E as -> ->. rewrite N.eqb_refl. reflexivity.
+  - destruct (a =? k) eqn:Ea; [|apply IH; assumption].
+    apply N.eqb_eq in Ea. subst a. exfalso. apply Hn. apply (in_map fst) in Hin. exact Hin.
+Qed.
+
+Lemma enum_snd_nodup keys : forall s, NoDup (map snd (enum_from s keys)).
+Proof.
+  induction keys as [|k t IH]; intros s; [constructor|]. cbn [enum_from map snd]. constructor; [|apply IH].
+  intros Hin. apply in_map_iff in Hin. destruct Hin as ([k' v'] & Ev & Hin). cbn [snd] in Ev. subst v'.
+  apply enum_from_in in Hin. destruct Hin as (i & _ & Hi). lia.
+Qed.
+
+Lemma agrees_items items keys : Permutation items (enum_from 0 keys) -> agrees (rev (map swap_kv items) ++ []) keys.
+Proof.
+  intros HP i s Hi. rewrite app_nil_r. apply lookup_in.
+  - rewrite map_rev, map_map. cbn [swap_kv fst]. apply NoDup_rev. 
+    apply (Permutation_NoDup (l := map snd (enum_from 0 keys))); [apply Permutation_map; symmetry; exact HP|apply enum_snd_nodup].
+  - rewrite <- in_rev. change (N.of_nat i, s) with (swap_kv (s, N.of_nat i)). apply in_map.
+    apply (Permutation_in _ (Permutation_sym HP)). apply enum_from_in. exists i. split; [exact Hi|reflexivity].
+Qed.
+Lemma agrees_enum keys : agrees (rev (map swap_kv (enum_from 0 keys)) ++ []) keys.
+Proof. apply agrees_items. apply Permutation_refl. Qed.
+
+Lemma items_values_nodup items keys : Permutation items (enum_from 0 keys) -> NoDup (map snd items).
+Proof.
+  intros HP. apply (Permutation_NoDup (l := map snd (enum_from 0 keys))); [apply Permutation_map; symmetry; exact HP|apply enum_snd_nodup].
+Qed.
